@@ -24,7 +24,7 @@ from .resume import run_spec, ID_SETS
 def gen_plan_c08b(seed, tier, index):
     r = kernel.rng(seed, 'C08B', tier, index, 'plan')
     x = r.random()
-    mode = 'decode' if x < 0.6 else 'ocr' if x < 0.88 else 'layout'
+    mode = 'decode' if x < 0.55 else 'ocr' if x < 0.8 else 'layout' if x < 0.9 else 'cnn'
     many = mode == 'ocr' and r.random() < 0.7        # pages whose lines need several OCR batches
     d = gen_decoder_cfg(r, allow_filter=False)
     if r.random() < 0.7:
@@ -51,6 +51,14 @@ def gen_plan_c08b(seed, tier, index):
         if mode == 'ocr' and r.random() < 0.3:
             pages[-1]['xml_style'] = 'transkribus'      # importer guesses heights (global numpy RNG)
             pages[-1]['curved'] = r.random() < 0.6     # 12-point baselines that really bend
+    if mode == 'cnn':
+        # pages of different text sizes for the CNN layout stage (stub ParseNet), which adapts its analysis
+        # resolution to the text size - and remembers it
+        for p in pages:
+            p['lines'] = [{'blocks': r.randint(4, 12), 'frames': 4, 'seed': r.randrange(1 << 30), 'amb': 0.3} for _ in range(r.randint(2, 4))]
+            p['ink_height'] = r.choice([16, 24, 40, 60, 80, 96])
+            p['same_left_edge'] = r.random() < 0.5
+            p.pop('xml_style', None)
     if mode == 'layout':
         # same-size pages whose text regions come from input PAGE XML with different polygons
         nl, nb = r.randint(2, 4), r.randint(12, 24)
@@ -77,6 +85,10 @@ def gen_plan_c08b(seed, tier, index):
             'clock': {'inc': [0.001, 0.02], 'jumps': {}}}
     if mode == 'ocr':
         plan['outputs'] += [k for k in ('lines', 'logits') if r.random() < 0.4]
+    if mode == 'cnn':
+        plan['cfg'].pop('decoder')
+        plan['cfg']['cnn_adaptive'] = r.random() < 0.6
+        plan['outputs'] = ['xml'] + [k for k in ('alto', 'logits') if r.random() < 0.4]
     if mode == 'layout':
         plan['regions_from_xml'] = True
         plan['outputs'] = ['xml'] + (['lines'] if r.random() < 0.5 else [])
@@ -179,6 +191,8 @@ def execute_c08b(plan):
                 break
             snap = snapshot(out)
             res.probe('scenario_' + s['kind'])
+            if plan['mode'] == 'cnn':
+                res.probe('cnn_layout_stage_adaptive' if plan['cfg'].get('cnn_adaptive', True) else 'cnn_layout_stage_fixed_resolution')
             if len(set(order)) >= 2 and carry_lm:
                 res.probe('multi_page_run_with_lm_carry')
                 res.nontrivial = kernel.sha([plan['cfg'], [p['lines'] for p in plan['pages']], [x['kind'] for x in plan['scenarios']]])
@@ -203,9 +217,11 @@ def execute_c08b(plan):
                     if snap.get(f) != dg:
                         got = _page_result_from_xml(os.path.join(out, 'xml', pid + '.xml')) if os.path.exists(os.path.join(out, 'xml', pid + '.xml')) else None
                         alone = _page_result_from_xml(os.path.join(world.root, 'alone%d' % ids.index(pid), 'out', 'xml', pid + '.xml'))
+                        sig = 'pf-differs-from-alone|%s|carry=%d|lm=%d' % (s['kind'], int(bool(d.get('carry'))), int(bool(d.get('lm'))))
+                        if plan['mode'] == 'cnn':
+                            sig = 'pf-differs-from-alone|cnn-layout|adaptive_downsample=%d' % int(bool(plan['cfg'].get('cnn_adaptive', True)))
                         res.violations.append(kernel.Violation(
-                            'C08', 'history-dependence',
-                            'pf-differs-from-alone|%s|carry=%d|lm=%d' % (s['kind'], int(bool(d.get('carry'))), int(bool(d.get('lm')))),
+                            'C08', 'history-dependence', sig,
                             'scenario %d (%s, processing order %s): %s of page %r differs from the page processed alone: %s vs %s' % (
                                 si, s['kind'], order, f.split('/')[0], pid, got, alone)))
                         break
